@@ -5,7 +5,7 @@ PID = 'C03'
 
 CLAIM = dict(
     text='Dense.tla defines every Matrix operation as a mathematical operator. TLC (i) explores every editing history of depth 2-3 on all shapes 0..2(3) x 0..2(3) checking the shape invariant and the algebraic laws in every state, (ii) enumerates those histories as cases that are replayed on the real Matrix<Rat/f64/Complex/i64>, and (iii) validates, event by event, recorded executions of the real code over all shapes 0..8 exhaustively and random 50-200 step histories: each post-state/return value must equal the operator applied to the model state. Exact (integers); a single wrong element, shape or missing panic in any recorded step is rejected.',
-    note='Trusted: TLC, the Dense.tla operators (cross-checked by the algebraic laws), the harness projection of a Matrix to integers. Element values are small integers (exact in every element type); complex matrices are validated as real and imaginary parts. norm_p/norm_frob are judged against an independent evaluation in units of 16*(r*c+1)*eps (harness measurement). Two further families: histories on Matrix<u32> kept inside the unsigned range (an operation that leaves the element type through an intermediate panics and is rejected), and every entrywise operator of Matrix<f64> on inexact values, where each result entry must carry the bit pattern of the one IEEE operation of the definition (sign of a zero not demanded); there the primitive f64 operation is the trusted reference.',
+    note='Trusted: TLC, the Dense.tla operators (cross-checked by the algebraic laws), the harness projection of a Matrix to integers. Element values are small integers (exact in every element type); complex matrices are validated as real and imaginary parts. norm_p/norm_frob are judged against an independent evaluation in units of 16*(r*c+1)*eps (harness measurement), for p = 1..6 on integer data and for large exponents (7 .. 2e9) on matrices with entries 0 / +-1 whose maximum is attained several times (every |a|^p exact, so the definition is k^(1/p) free of overflow; a shortcut to the max norm is off by ln(k)/p). Two further families: histories on Matrix<u32> kept inside the unsigned range (an operation that leaves the element type through an intermediate panics and is rejected), and every entrywise operator of Matrix<f64> on inexact values, where each result entry must carry the bit pattern of the one IEEE operation of the definition (sign of a zero not demanded); there the primitive f64 operation is the trusted reference.',
     design='4 (C03)')
 
 
